@@ -232,6 +232,7 @@ class Extractor:
         for f in self.state_fields:
             st.fields[f] = SInt(f, 0)
         args = [SObj(ast.Name(id=p, ctx=ast.Load())) for p in m.params[1:]]
+        self.root = m           # expressions of symbolic inputs are relative to this method's parameters
         outs = self.call(m, args, st)
         res = []
         for s, v in outs:
@@ -245,17 +246,17 @@ class Extractor:
         self.problems.append(Problem(kind, text, node, func))
 
     # -- calls ----------------------------------------------------------------------------
-    def call(self, m, args, st):
-        """symbolically run method m; -> list of (state, return value)"""
+    def call(self, m, args, st, method=True):
+        """symbolically run method m (or, with method=False, a module-level helper); -> list of (state, return value)"""
         self.depth += 1
         if self.depth > 12:
             raise AnalysisError('templates: call depth exceeded in %s' % m.qname)
         try:
             s0 = st.copy()
             saved_env = st.env
-            s0.env = {'self': SSelf()}
+            s0.env = {'self': SSelf()} if method else {}
             a = m.node.args
-            params = [x.arg for x in a.args][1:]
+            params = [x.arg for x in a.args][1:] if method else [x.arg for x in a.args]
             for i, p in enumerate(params):
                 if i < len(args):
                     s0.env[p] = args[i]
@@ -601,7 +602,8 @@ class Extractor:
             self.problem('list-str', 'a Python list reaches a position where text is expected (%s)' % (norm(node) if node is not None else repr(v)), node, m)
             return Lit('<list>')
         if isinstance(v, SObj):
-            return Repr(v.expr, m) if conv == 'r' else Hole(v.expr, m)
+            r_ = getattr(self, 'root', None) or m
+            return Repr(v.expr, r_) if conv == 'r' else Hole(v.expr, r_)
         if isinstance(v, SInt):
             if v.field is None:
                 return Lit(str(v.off))
@@ -684,7 +686,7 @@ class Extractor:
             if name == 'repr':
                 a = args[0]
                 if isinstance(a, SObj):
-                    return [(st, Repr(a.expr, m))]
+                    return [(st, Repr(a.expr, getattr(self, 'root', None) or m))]
                 if isinstance(a, (bool, type(None))):
                     return [(st, Lit(repr(a)))]
                 if isinstance(a, Lit):
@@ -721,6 +723,14 @@ class Extractor:
             r = self.repo.resolve_name(m, name)
             if r and r[0] == 'class':
                 return [(st, ('new', r[1], args))]
+            if r and r[0] == 'func' and not r[1].is_generator and not e.keywords and \
+                    all(isinstance(a_, (SObj, SInt, bool, type(None), Lit, Doc)) or (isinstance(a_, tuple) and a_ and a_[0] in ('len', 'str', 'sym')) for a_ in args):
+                # a module-level helper of the emitter (e.g. the one that spells a function name): pasted in
+                snapshot = st.copy()
+                try:
+                    return self.call(r[1], args, st, method=False)
+                except AnalysisError:
+                    return [(snapshot, ('sym', norm(e), e))]
             return [(st, ('sym', norm(e), e))]
         if isinstance(fn, ast.Attribute):
             outs = []
